@@ -4,7 +4,7 @@
    no remove-private-as, no route server (those options are exercised by the correspondence harness only). *)
 From Coq Require Import List ZArith Bool.
 From Verif Require Import Decision.Model Speaker.Model Speaker.Lemmas Speaker.RibLemmas Speaker.RibProofs Speaker.RibSpec Speaker.ExportProofs.
-From Verif Require Rewrite.Model Rewrite.Proofs.
+From Verif Require Rewrite.Model Rewrite.Proofs Rewrite.OwnAs Rewrite.OwnAsProofs.
 Import ListNotations.
 Open Scope Z_scope.
 
@@ -169,3 +169,37 @@ Proof.
 Qed.
 Print Assumptions C09_replace_peer_as.
 End X.
+
+(* ---- the receive-side own-AS check with allow-own-as (pkg/server/fsm.go hasOwnASLoop; model Rewrite.OwnAs, tied to the
+   real function through the hook VerifHasOwnASLoop on every run): the verdict is decided by the number of occurrences of
+   the local AS (or, in a confederation, of its identifier) in the WHOLE AS_PATH, whatever the division into segments
+   and whatever the segment types *)
+Theorem C09_allow_own_as_counts_the_whole_path : forall own limit confed ce p, 0 <= limit ->
+  Rewrite.OwnAs.has_own_as_loop own limit p confed ce = (limit <? Rewrite.OwnAs.occ own confed ce (Rewrite.OwnAs.members p)).
+Proof. exact Rewrite.OwnAsProofs.own_as_loop_counts_the_whole_path. Qed.
+Print Assumptions C09_allow_own_as_counts_the_whole_path.
+
+Theorem C09_allow_own_as_independent_of_segmentation : forall own limit confed ce p q, 0 <= limit ->
+  Rewrite.OwnAs.members p = Rewrite.OwnAs.members q ->
+  Rewrite.OwnAs.has_own_as_loop own limit p confed ce = Rewrite.OwnAs.has_own_as_loop own limit q confed ce.
+Proof. exact Rewrite.OwnAsProofs.own_as_loop_independent_of_segmentation. Qed.
+Print Assumptions C09_allow_own_as_independent_of_segmentation.
+
+Theorem C09_own_as_anywhere_is_a_loop_without_allowance : forall own confed ce p,
+  Rewrite.OwnAs.has_own_as_loop own 0 p confed ce = true <->
+  exists a, In a (Rewrite.OwnAs.members p) /\ Rewrite.OwnAs.is_own own confed ce a = true.
+Proof. exact Rewrite.OwnAsProofs.own_as_loop_limit_zero. Qed.
+Print Assumptions C09_own_as_anywhere_is_a_loop_without_allowance.
+
+Theorem C09_accepted_route_within_allowance : forall own limit confed ce p, 0 <= limit ->
+  Rewrite.OwnAs.has_own_as_loop own limit p confed ce = false ->
+  Rewrite.OwnAs.occ own confed ce (Rewrite.OwnAs.members p) <= limit.
+Proof. exact Rewrite.OwnAsProofs.own_as_accepted_within_allowance. Qed.
+Print Assumptions C09_accepted_route_within_allowance.
+
+Example C09_allow_own_as_nonvacuous :
+  Rewrite.OwnAs.has_own_as_loop 65000 1 [(2, [65001; 65000]); (1, [65002; 65000])] 0 false = true /\
+  Rewrite.OwnAs.has_own_as_loop 65000 2 [(2, [65001; 65000]); (1, [65002; 65000])] 0 false = false /\
+  Rewrite.OwnAs.has_own_as_loop 65000 1 [(2, [65001; 65000]); (3, [65100])] 65100 true = true /\
+  Rewrite.OwnAs.has_own_as_loop 65000 0 [(2, [65001; 65002])] 0 false = false.
+Proof. exact Rewrite.OwnAsProofs.own_as_nonvacuous. Qed.
